@@ -167,6 +167,7 @@ func wireCheck(c *chk.Ctx, family string, expandKinds bool, random func(*chk.Ctx
 		clientSideCheck(c, `{"C10"}`, realErrorResponses(out))
 	case "C11":
 		clientSideCheck(c, `{"C11"}`, realErrorResponses(out))
+		malformedCodecShapes(c)
 	}
 	c.Done()
 }
